@@ -88,3 +88,44 @@ PROPS['C10'] = dict(
     assumptions=COMMON_ASSUME + ['Group<Perm> is exercised directly (hook) here; through EGraph unions under C01/C02'],
     pending_theorems=['contains_sound', 'contains_complete (Schreier)', 'allPerms_nodup', 'addSet_true_iff', 'orbit_iff', 'leaf_eq_iff'],
 )
+
+EG_RULE = ('corr.spec.eq: histories over the main language (lam/app/var/let/add/mul/sum, multi-slot leaves f2 f3 f4 g1 g2 g3, '
+           'unary h, binary k, numbers, symbols): 3-7 inserted terms (depth <= 2, 2-4 free slot names, deliberate sharing), '
+           '1-4 unions, observed after every union; streams: mixed 50%, symmetry (permuted copies incl. 3-cycles) 10%, '
+           'redundancy (partially overlapping slot sets) 10%, self-reference t = C[t\'] 10%, binders 20%. Observables per query: '
+           'eq for every pair of tracked terms, slot count and symmetry count of every tracked term\'s class, number of live '
+           'classes; the expected values come from the Lean saturation oracle (ground congruence closure over the history\'s '
+           'names + 2-3 spares, all injective instances of all subterms). non-trivial = some slot count or symmetry count '
+           'changed or a non-asserted pair became equal; distinct = by hash of the case line')
+
+EG_TRUST = ['NOT modelled (judged per run only): add_internal, union_internal/union_leaders/move_to, shrink_slots, rebuild/handle_pending, '
+            'determine_self_symmetries, handle_congruence — no theorem quantifies over all histories of the implementation',
+            'oracle completeness is not proved (a derivation may need names or terms outside the finite universe); '
+            '"sound"-direction differences are re-judged with a larger pool before being reported',
+            'term text encoding / LN conversion (Term.close) on the Lean side, RecExpr construction on the Rust side']
+
+PROPS['C01'] = dict(
+    level='translation_validation',
+    module='SlotVerif.Props.C01',
+    suites=[dict(name='eg', variant='default', comparator='eg', direction='sound', escalate=5, shrink=False, panics_count=False,
+                 quick=dict(count=1500), thorough=dict(count=40000)),
+            dict(name='eg', variant='checks', comparator='eg', direction='sound', escalate=5, shrink=False, panics_count=False,
+                 quick=dict(count=500), thorough=dict(count=10000))],
+    rule=EG_RULE + '. C01 reads the differences where the implementation claims MORE than the spec derives (eq=1 vs 0, fewer slots, more symmetries, fewer classes).',
+    trusted_base=EG_TRUST,
+    assumptions=COMMON_ASSUME + ['panics are not C01 violations (no answer is given); they are C08\'s'],
+    pending_theorems=['cong_eval (soundness of Cong in the arithmetic model, C03)', 'checkDag_sound (C07)'],
+)
+
+PROPS['C02'] = dict(
+    level='translation_validation',
+    module='SlotVerif.Props.C02',
+    suites=[dict(name='eg', variant='default', comparator='eg', direction='complete', shrink=False,
+                 quick=dict(count=1500), thorough=dict(count=40000)),
+            dict(name='eg', variant='checks', comparator='eg', direction='complete', shrink=False,
+                 quick=dict(count=500), thorough=dict(count=10000))],
+    rule=EG_RULE + '. C02 reads the differences where the implementation claims LESS than the spec derives (eq=0 vs 1, more slots, fewer symmetries, more classes), checked right after each union returns; a panic also counts.',
+    trusted_base=EG_TRUST,
+    assumptions=COMMON_ASSUME,
+    pending_theorems=[],
+)
